@@ -210,7 +210,9 @@ W["applies_to_trial"] = dict(
              "implies(not IS_DERIVED, result == True)",
              # derivations.rst: `start` counts trials from 0; the factor applies to trial start, start+stride, ...
              "implies(IS_DERIVED and result, trial_number - 1 >= WIN.start and exists(m, 0, trial_number, trial_number - 1 == WIN.start + m * WIN.stride))",
-             "implies(IS_DERIVED and not result, not exists(m, 0, trial_number, trial_number - 1 == WIN.start + m * WIN.stride))"],
+             # (the converse direction is stated with the remainder: x mod s == 0 <=> exists m. x == m*s is the definition of
+             #  divisibility; quantifying over m under a negation is nonlinear and was unstable in z3)
+             "implies(IS_DERIVED and not result, trial_number - 1 < WIN.start or (trial_number - 1 - WIN.start) % WIN.stride != 0)"],
     native=dict(call=_att_call,
                 domain=lambda: ({"trial_number": t, "IS_DERIVED": d, "WIN": _types.SimpleNamespace(start=s, stride=k)}
                                 for t in range(-1, 12) for d in (False, True) for s in range(0, 4) for k in range(1, 4))),
